@@ -27,12 +27,14 @@ class Group:
     """Picklable description of one group job."""
 
     def __init__(self, pid, prog_id, src, lang, base_name, base, judge, fam1=None, fam2=None, k=1,
-                 hooks=(), meta=None, args=(), deadline=None, max_second=None):
+                 hooks=(), meta=None, args=(), deadline=None, max_second=None, flavour="hooks", quiet=True, env=None,
+                 timeout=10.0, allow_lexer=False):
         self.pid = pid; self.prog_id = prog_id; self.src = src; self.lang = lang
         self.base_name = base_name; self.base = base; self.judge = judge
         self.fam1 = fam1; self.fam2 = fam2; self.k = k; self.hooks = tuple(hooks)
         self.meta = meta or {}; self.args = tuple(args); self.deadline = deadline
         self.max_second = max_second
+        self.flavour = flavour; self.quiet = quiet; self.env = env; self.timeout = timeout; self.allow_lexer = allow_lexer
 
 
 def run_group(g):
@@ -44,7 +46,8 @@ def run_group(g):
 
     def one(devs):
         cfg = configs.text(g.base, devs)
-        r = run.unc(g.src, cfg or None, g.lang, args=g.args, hooks=hooks)
+        r = run.unc(g.src, cfg or None, g.lang, args=g.args, hooks=hooks, flavour=g.flavour, quiet=g.quiet, env=g.env,
+                    timeout=g.timeout)
         res["runs"] += 1
         if r.timeout:
             res["timeouts"] += 1
@@ -53,7 +56,8 @@ def run_group(g):
         elif r.out != g.src:
             res["nontrivial"] += 1
         case = {"src": g.src, "lang": g.lang, "base": g.base_name, "base_settings": g.base, "devs": devs,
-                "cfg": cfg, "prog": g.prog_id, "meta": g.meta}
+                "cfg": cfg, "prog": g.prog_id, "meta": g.meta, "flavour": g.flavour, "quiet": g.quiet, "env": g.env,
+                "args": g.args}
         for w in g.judge(case, r) or ():
             w = dict(w)
             w.setdefault("devs", ",".join("%s=%s" % d for d in devs))
@@ -72,8 +76,8 @@ def run_group(g):
     reads0 = r0.reads
     res["readset"] = len(reads0) if reads0 is not None else -1
     if g.k >= 1 and g.fam1 is not None:
-        s1 = configs.singles(R, g.base, reads0, g.fam1)
-        allfam = configs.singles(R, g.base, None, g.fam1)
+        s1 = configs.singles(R, g.base, reads0, g.fam1, allow_lexer=g.allow_lexer)
+        allfam = configs.singles(R, g.base, None, g.fam1, allow_lexer=g.allow_lexer)
         res["pruned"] += len(allfam) - len(s1)
         done_pairs = set()
         for d1 in s1:
@@ -82,7 +86,7 @@ def run_group(g):
                 return res
             r1 = one((d1,))
             if g.k >= 2 and g.fam2 is not None and r1.reads is not None:
-                s2 = configs.singles(R, dict(g.base, **{d1[0]: d1[1]}), r1.reads, g.fam2)
+                s2 = configs.singles(R, dict(g.base, **{d1[0]: d1[1]}), r1.reads, g.fam2, allow_lexer=g.allow_lexer)
                 n2 = 0
                 for d2 in s2:
                     if d2[0] == d1[0]:
@@ -134,3 +138,51 @@ def drive(ctx, groups, pool, chunksize=1, on_result=None):
 def pack(lines, per):
     for i in range(0, len(lines), per):
         yield i // per, lines[i:i + per]
+
+
+# ---------------------------------------------------------------------------
+# plain cases (k = 0): one execution each
+
+class Case:
+    """Picklable single execution: input x language x configuration text x extra argv."""
+
+    def __init__(self, cid, src, lang, cfg, judge, args=(), flavour="hooks", quiet=True, env=None, hooks=(), meta=None,
+                 timeout=10.0, assume=None):
+        self.cid = cid; self.src = src; self.lang = lang; self.cfg = cfg; self.judge = judge; self.args = tuple(args)
+        self.flavour = flavour; self.quiet = quiet; self.env = env; self.hooks = tuple(hooks); self.meta = meta or {}
+        self.timeout = timeout; self.assume = assume
+
+
+def run_case(c):
+    r = run.unc(c.src, c.cfg, c.lang, args=c.args, hooks=c.hooks, flavour=c.flavour, quiet=c.quiet, env=c.env,
+                timeout=c.timeout, assume=c.assume)
+    case = {"src": c.src, "lang": c.lang, "cfg": c.cfg or "", "prog": c.cid, "meta": c.meta, "base": c.meta.get("base", ""),
+            "devs": (), "flavour": c.flavour, "quiet": c.quiet, "env": c.env, "args": c.args}
+    viol = []
+    for w in c.judge(case, r) or ():
+        w = dict(w)
+        files = case_files(case, r)
+        priv = {k: w.pop(k) for k in list(w) if k.startswith("_")}
+        if priv:
+            import json as _json
+            files["detail.json"] = _json.dumps(priv, indent=1, default=str)
+        viol.append((w, files))
+    key = "rc=%s" % ("timeout" if r.timeout else r.rc)
+    return {"id": c.cid, "key": key, "nontrivial": bool(r.rc == 0 and not r.timeout and r.out != c.src),
+            "refused": bool(r.rc not in (0, None)), "timeout": r.timeout, "violations": viol, "lang": c.lang}
+
+
+def drive_cases(ctx, cases, pool, chunksize=16, agg=None, flavour="hooks"):
+    agg = agg if agg is not None else {"runs": 0, "nontrivial": 0, "refused": 0, "timeouts": 0, "outcomes": {}}
+    for res in pool.imap(run_case, cases, chunksize=chunksize, deadline=ctx.deadline):
+        agg["runs"] += 1
+        agg["nontrivial"] += res["nontrivial"]
+        agg["refused"] += res["refused"]
+        agg["timeouts"] += res["timeout"]
+        agg["outcomes"][res["key"]] = agg["outcomes"].get(res["key"], 0) + 1
+        for w, files in res["violations"]:
+            argv = [build.binary(flavour), "-c", "config.cfg", "-l", files.get("lang", "C"), "-f", "input"]
+            ctx.rep.violation(w, files, argv)
+    if pool.cut:
+        ctx.cut = True
+    return agg
